@@ -8,39 +8,48 @@ import (
 	"github.com/splunk/stef/go/pkg/schema"
 )
 
-// Known genuine defects of stefc-generated code that the random generator AVOIDS by
-// construction, triggered deliberately by small fixed schemas (all accepted by the parser).
-// lib/hgen.py prints the PROP-FAIL with the signature below only if the defect reproduces.
+// Small fixed schemas (all accepted by the idl parser) for which stefc used to generate code
+// that does not compile or cannot be initialised. Since repo commit 90dfff4
+// (stefc/generator/validate.go) stefc REFUSES most of them before generating anything: they are
+// regression cases now. lib/hgen.py counts a refusal of the expected class; if stefc accepts
+// such a schema again and the defect reproduces, the PROP-FAIL with the old signature fires.
+// refusal == "": still accepted by stefc, still a known finding (name clashes).
 type hazard struct {
-	name, expect, why, text string
+	name, expect, refusal, why, text string
 }
 
 var hazardList = []hazard{
-	{"hz_dictname", "generated-code-does-not-compile:struct-dict-name",
+	{"hz_dictname", "generated-code-does-not-compile:struct-dict-name", "struct-dict-name",
 		"struct S dict(D) with D != S: writerstate.go/readerstate.go refer to <D>EncoderDict/<D>DecoderDict, the struct template defines <S>EncoderDict",
 		"package hgen.pa\nstruct R1 root {\n  F1 S1\n}\nstruct S1 dict(Shared) {\n  F1 string\n}\n"},
-	{"hz_dictmix", "generated-code-does-not-compile:dict-shared-string-bytes",
+	{"hz_dictmix", "generated-code-does-not-compile:dict-shared-string-bytes", "dict-shared-string-bytes",
 		"one dictionary name used by a string field and a bytes field: a single state field of type codecs.BytesDict*/StringDict* is handed to both codecs",
 		"package hgen.pa\nstruct R1 root {\n  F1 string dict(D1)\n  F2 bytes dict(D1)\n}\n"},
-	{"hz_array_elem_dict", "generated-code-does-not-compile:array-elem-dict-undeclared",
+	{"hz_array_elem_dict", "generated-code-does-not-compile:array-elem-dict-undeclared", "array-elem-dict",
 		"a string/bytes dictionary used only by array element types ([]string dict(D)) is never declared in WriterState/ReaderState",
 		"package hgen.pa\nstruct R1 root {\n  F1 []string dict(D1)\n}\n"},
-	{"hz_recursive_dict_struct", "generated-code-does-not-compile:recursive-dict-struct",
+	{"hz_recursive_dict_struct", "generated-code-does-not-compile:recursive-dict-struct", "optional-dict-struct|recursive-dict-struct",
 		"a dictionary struct on a recursion cycle (stored by pointer twice over): the decoder passes *S where **S is expected, SetF() generated without its argument",
 		"package hgen.pa\nstruct R1 root {\n  F1 S1\n}\nstruct S1 dict(S1) {\n  F1 S1 optional\n  F2 int64\n}\n"},
-	{"hz_optional_dict_struct", "generated-code-does-not-compile:optional-dict-struct",
+	{"hz_recursive_dict_array", "generated-code-does-not-compile:recursive-dict-struct", "recursive-dict-struct",
+		"a dictionary struct that contains itself through an array (no optional field involved)",
+		"package hgen.pa\nstruct R1 root {\n  F1 S1\n}\nstruct S1 dict(S1) {\n  F1 []S1\n  F2 int64\n}\n"},
+	{"hz_mutual_containment", "init-never-terminates", "self-containment",
+		"two structs that contain each other through non-optional fields",
+		"package hgen.pa\nstruct R1 root {\n  F1 S1\n}\nstruct S1 {\n  F1 S2\n}\nstruct S2 {\n  F1 S1\n  F2 bool\n}\n"},
+	{"hz_optional_dict_struct", "generated-code-does-not-compile:optional-dict-struct", "optional-dict-struct",
 		"an optional field whose type is a dictionary struct: the presence setter Set<F>() and the dictionary setter Set<F>(*S) collide, the copy code calls s.Set<F>() without its argument",
 		"package hgen.pa\nstruct R1 root {\n  F1 S1 optional\n}\nstruct S1 dict(S1) {\n  F1 int64\n}\n"},
-	{"hz_oneof_names", "generated-code-does-not-compile:name-clash",
+	{"hz_oneof_names", "generated-code-does-not-compile:name-clash", "",
 		"oneof alternatives named Type / None collide with the generated Type()/SetType() methods and the <Oneof>TypeNone constant",
 		"package hgen.pa\nstruct R1 root {\n  F1 O1\n}\noneof O1 {\n  Type int64\n  None bool\n}\n"},
-	{"hz_struct_names", "generated-code-does-not-compile:name-clash",
+	{"hz_struct_names", "generated-code-does-not-compile:name-clash", "",
 		"struct fields named Init / Clone collide with the generated methods (field init vs method init)",
 		"package hgen.pa\nstruct R1 root {\n  Init bool\n  Clone int64\n}\n"},
-	{"hz_keyword", "generated-code-does-not-compile:go-keyword-field",
+	{"hz_keyword", "generated-code-does-not-compile:go-keyword-field", "go-keyword-field",
 		"a field whose lower-cased name is a Go keyword (type) is used verbatim as a struct member / parameter name",
 		"package hgen.pa\nstruct R1 root {\n  type uint64\n  x string\n}\n"},
-	{"hz_direct_recursion", "init-never-terminates",
+	{"hz_direct_recursion", "init-never-terminates", "self-containment",
 		"a struct that contains itself through a NON-optional field is accepted by the parser and compiles, but Init()/New<Struct>() recurse without bound (stack overflow, not recoverable)",
 		"package hgen.pa\nstruct R1 root {\n  F1 R1\n  F2 int64\n}\n"},
 }
@@ -54,7 +63,7 @@ func hazards(outdir, hdir string) []*entry {
 			continue
 		}
 		e := &entry{ID: h.name, Kind: "hazard", Dir: filepath.Join(outdir, h.name), Schemas: []string{"a.stef"}, Pkgs: []string{"pa"},
-			Expect: h.expect, Why: h.why}
+			Expect: h.expect, Why: h.why, Refusal: h.refusal}
 		if err := writeModule(e, hdir, []string{h.text}, []*schema.Schema{s}, []string{h.name}); err != nil {
 			fmt.Fprintln(os.Stderr, "h_gen:", err)
 			os.Exit(2)
